@@ -619,7 +619,7 @@ Lemma new_prop_find_response_wf cd path req props :
   resp_wf cd (new_prop_find_response path req props).
 Proof.
   intros HN HC HP. unfold resp_wf, new_prop_find_response. cbn [r_hrefs r_propstats r_status r_error].
-  repeat split; try discriminate.
+  split; [| split; [| split]]; try discriminate.
   - intros p [<- | []]. exact HP.
   - generalize (uniq_names req). intros l.
     assert (G : forall acc, (forall ps, In ps acc -> ps_wf ps) ->
@@ -634,7 +634,7 @@ Qed.
 Lemma decode_prop_raw_lookup r n :
   r_status r = None ->
   decode_prop_raw r n = match lookup n (r_propstats r) with
-                        | Some (raw, c) => if c =? 200 then COk raw else CHttp c
+                        | Some (raw, c) => if Z.quot c 100 =? 2 then COk raw else CHttp c
                         | None => CHttp 404
                         end.
 Proof.
@@ -646,7 +646,7 @@ Lemma decode_prop_raw_npfr path req props n :
   answers_named (with_resourcetype props) ->
   decode_prop_raw (new_prop_find_response path req props) n
   = if existsb (xname_eqb n) req
-    then (let a := answer (with_resourcetype props) n in if snd a =? 200 then COk (fst a) else CHttp (snd a))
+    then (let a := answer (with_resourcetype props) n in if Z.quot (snd a) 100 =? 2 then COk (fst a) else CHttp (snd a))
     else CHttp 404.
 Proof.
   intros HN. rewrite decode_prop_raw_lookup by reflexivity.
